@@ -4,6 +4,7 @@ pub mod common;
 pub mod c01;
 pub mod c02;
 pub mod c04;
+pub mod c05;
 pub mod c06;
 pub mod c09;
 pub mod c12;
@@ -14,6 +15,7 @@ pub fn lookup(id: &str) -> Option<&'static dyn Property> {
         "C01" => Some(&c01::C01),
         "C02" => Some(&c02::C02),
         "C04" => Some(&c04::C04),
+        "C05" => Some(&c05::C05),
         "C06" => Some(&c06::C06),
         "C09" => Some(&c09::C09),
         "C12" => Some(&c12::C12),
